@@ -114,14 +114,17 @@ def read_db(path: str, sql: str, args=()):
         con.close()
 
 
-def wrap_method(cls, name, before=None, after=None):
-    """Install a recording wrapper on ``cls.name`` (idempotent per (cls, name, tag))."""
+def wrap_method(cls, name, before=None, after=None, tag=None):
+    """Install a recording wrapper on ``cls.name``; wrappers stack, each tag is applied once."""
+    import functools
+
     orig = cls.__dict__.get(name)
     if orig is None:
         orig = getattr(cls, name)
-    if getattr(orig, "_rsim_wrapped", False):
+    tag = tag or f"{getattr(before, '__qualname__', None)}|{getattr(after, '__qualname__', None)}"
+    tags = getattr(orig, "_rsim_tags", frozenset())
+    if tag in tags:
         return
-    import functools
 
     @functools.wraps(orig)
     def wrapper(self, *a, **k):
@@ -131,7 +134,7 @@ def wrap_method(cls, name, before=None, after=None):
             after(self, tok, res, *a, **k)
         return res
 
-    wrapper._rsim_wrapped = True  # noqa: SLF001
+    wrapper._rsim_tags = tags | {tag}  # noqa: SLF001
     wrapper._rsim_orig = orig  # noqa: SLF001
     setattr(cls, name, wrapper)
 
